@@ -88,7 +88,7 @@ def compare(pid, case, ctx, cfgs, extended=False, expect=None, strata_fn=None):
         # the same question asked under another, answer-neutral circumstance (chosen by case hash)
         h = int(gen.case_hash([case.get("atoms"), case.get("base"), case.get("queries")]), 16) % 20
         variant = {0: "parallel", 1: "parallel", 2: "debug-logging", 3: "recycled-base-object",
-                   4: "second-call"}.get(h, "plain")
+                   4: "second-call", 5: "undeclared-atom"}.get(h, "plain")
     import logging
     liblog = logging.getLogger("inference")
     if variant == "debug-logging":
@@ -104,6 +104,11 @@ def compare(pid, case, ctx, cfgs, extended=False, expect=None, strata_fn=None):
         decoy = [(k, fm.V(allat[i % len(allat)]), fm.T if i % 2 else fm.V(allat[(i + 1) % len(allat)]))
                  for i, (k, _, _) in enumerate(base)]
         recycled = bridge.mk_bb(atoms, decoy)
+    if variant == "undeclared-atom" and len(atoms) >= 2:
+        # the declared signature omits an atom the conditionals use (BeliefBase takes any list and
+        # the parser records but never enforces the declaration); the semantics is unaffected
+        ctx.stratum("variant:signature-omits-a-used-atom")
+        atoms = list(atoms[:-1])
     if variant == "second-call":
         # the batch is the SECOND inference() call of its manager (preprocessing is skipped then)
         ctx.stratum("variant:second-call-on-manager")
